@@ -72,9 +72,12 @@ def applyAff (a : Aff) (v : Val) : Val :=
 /-- comparison of two stored values: numbers numerically (integer against real exactly), texts byte by byte,
     a number never equals a text -/
 def cmpEq (a b : Val) : Bool :=
-  match a.num?, b.num? with
-  | some p, some q => p = q
-  | none, none => a = b
+  match a, b with
+  | .int i, .int j => i == j
+  | .int i, .real q => (i : Rat) == q
+  | .real p, .int j => p == (j : Rat)
+  | .real p, .real q => p == q
+  | .text s, .text t => s == t
   | _, _ => false
 
 def sqlEq (aff : Aff) (stored bound : Val) : Bool := cmpEq stored (applyAff aff bound)
@@ -92,11 +95,17 @@ structure SqlCond where
   vals : List Val
   deriving DecidableEq, Repr
 
-def SqlCond.holds (db : Db) (c : SqlCond) (rp : Row × Nat) : Bool :=
-  (c.vals.any (fun v => sqlEq (affOf db c.col) (sqlCell c.col rp.2 rp.1) v)) != c.neg
+/-- the bound values of a condition after the column's affinity was applied (done once per statement) -/
+def SqlCond.bound (db : Db) (c : SqlCond) : List Val := c.vals.map (applyAff (affOf db c.col))
+
+def SqlCond.holds (c : SqlCond) (bound : List Val) (rp : Row × Nat) : Bool :=
+  let stored := sqlCell c.col rp.2 rp.1
+  (bound.any (fun b => cmpEq stored b)) != c.neg
 
 /-- `WHERE c₁ AND c₂ AND …` -/
-def sqlWhere (db : Db) (conds : List SqlCond) (rp : Row × Nat) : Bool := conds.all (fun c => c.holds db rp)
+def sqlWhere (db : Db) (conds : List SqlCond) : Row × Nat → Bool :=
+  let cb := conds.map (fun c => (c, c.bound db))
+  fun rp => cb.all (fun x => x.1.holds x.2 rp)
 
 /-- `SELECT cols FROM tab WHERE conds` (rows come back in rowid order) -/
 def sqlSelect (db : Db) (tab : Tab) (cols : List Col) (conds : List SqlCond) : List (List Val) :=
@@ -210,7 +219,7 @@ def asData : Result → Except Err (List Item)
 def combine (neg : Bool) (rows : Option (List Int)) (index : List Int) : Option (List Int) :=
   match rows with
   | none => some index
-  | some rs => some (if neg then rs.filter (fun i => index.contains i) else rs ++ index)
+  | some rs => some (rs ++ index)
 
 def setKw (kw : List Kw) (idx : Nat) (key : Py.Str) (vc : List Val) : List Kw :=
   kw.set idx { key := key, arg := .list vc }
